@@ -132,7 +132,12 @@ type ISO8601Time time.Time
 
 // MarshalText implements encoding.TextMarshaler.
 func (t ISO8601Time) MarshalText() ([]byte, error) {
-	return []byte(time.Time(t).Format(time.RFC3339)), nil
+	ts := time.Time(t)
+	// RFC 3339 can only express zone offsets in whole minutes
+	if _, offset := ts.Zone(); offset%60 != 0 {
+		ts = ts.UTC()
+	}
+	return []byte(ts.Format(time.RFC3339)), nil
 }
 
 // UnmarshalText implements encoding.TextUnmarshaler.
